@@ -29,6 +29,8 @@ NEAR_EPS = (1e-13, 1e-12, 1e-11, 1e-10, 3e-10, 1e-9, 1e-8, 1e-7, 1e-6, 1e-5, 1e-
 NEAR_T = (1.0 / 3.0, 0.5, 0.7, -0.4, 1.6)
 
 _CACHE = {}
+DEGENERATE_TRIPLES = (((0, 0, 0), (0.5, 0.5, 0), (1, 1, 0)), ((0, 0, 0), (1, 2, 3), (2, 4, 6)),
+                      ((1, 1, 1), (1, 1, 1), (2, 3, 4)), ((0, 0, 0), (-1, -1, -1), (1, 1, 1)))
 
 
 def axes(tier, seed):
@@ -57,7 +59,8 @@ def axes(tier, seed):
 
 
 def angles(tier):
-    a = [0.0, math.pi / 2, -math.pi / 2, math.pi, -math.pi, 2 * math.pi, 0.7, -0.7, 20.0, -20.0, 1e-9]
+    # 5e-4 / -2e-4: small enough for a "small angle" shortcut, large enough that a first-order one is visible
+    a = [0.0, math.pi / 2, -math.pi / 2, math.pi, -math.pi, 2 * math.pi, 0.7, -0.7, 20.0, -20.0, 1e-9, 5e-4, -2e-4]
     if tier == 'thorough':
         a += [math.pi / 3, -2 * math.pi / 3, 1.0, -3.0, 6.0, -12.5, 1e-4, -1e-9, 19.999, 3 * math.pi]
     return a
@@ -195,6 +198,17 @@ class C17(Check):
         angs = angles(case['tier'])
         eye = np.eye(3)
         mats = {}
+        # the two functions of the module are used alternately by the library: degenerate frames are computed
+        # before the rotations (nothing they leave behind may reach rotation_matrix), and what they returned is
+        # looked at again afterwards
+        from gaddlemaps._auxilliary import calcule_base
+        held = []
+        for tri in DEGENERATE_TRIPLES:
+            try:
+                b, _ = calcule_base([np.array(p, float) for p in tri])
+                held.append(([np.asarray(v) for v in b], [np.array(v, float) for v in b]))
+            except Exception:
+                pass                      # reported by the frame cases
         single = [case['a']] if 'a' in case else range(len(angs))
         for ia in (range(len(angs)) if 'b' in case or 'a' not in case else single):
             try:
@@ -235,6 +249,11 @@ class C17(Check):
                        outcome='identity' if np.array_equal(m, eye) else 'rotation')
                 if sig:
                     R.violation(sig, d, det)
+        for vecs, snap in held:
+            if any(not np.array_equal(np.asarray(v, float), w) for v, w in zip(vecs, snap)):
+                R.violation('calcule_base/frame-returned-earlier-changed-by-later-calls', dict(case),
+                            [np.asarray(v).tolist() for v in vecs])
+                break
         if 'a' in case and 'b' not in case:
             return
         pairs = ([(case['a'], case['b'])] if 'b' in case else
@@ -259,6 +278,7 @@ class C17(Check):
         oi = [case['off']] if 'off' in case else range(len(offs))
         sc = [case['scale']] if 'scale' in case else SCALES
         forms = [case['form']] if 'form' in case else ('list', 'array', 'farray')
+        first_frame = None
         for o in oi:
             for s, form in itertools.product(sc, forms):
                 d = dict(case, off=o, scale=s, form=form)
@@ -300,6 +320,21 @@ class C17(Check):
                        outcome=cls if cls.startswith('line') else cls.split('-')[0])
                 if sig:
                     R.violation(f'calcule_base/{cls}/{sig}', d, det)
+                elif first_frame is None:
+                    first_frame = ([np.asarray(v) for v in base], B.copy(), d)
+        # interplay inside one case: a rotation computed right after these frames is still a proper rotation, and
+        # the first frame returned in this case still holds the vectors it was returned with
+        from gaddlemaps._auxilliary import rotation_matrix
+        try:
+            m = np.array(rotation_matrix(np.array([0.0, 0.0, 1.0]), 0.3), float)
+            if np.abs(m @ m.T - np.eye(3)).max() > TOL_ROT or abs(np.linalg.det(m) - 1.0) > TOL_ROT:
+                R.violation(f'rotation_matrix/not-orthogonal-after-computing-frames', dict(case),
+                            float(np.abs(m @ m.T - np.eye(3)).max()))
+        except Exception as exc:
+            R.violation('rotation_matrix/exception', dict(case), repr(exc))
+        if first_frame is not None and not np.array_equal(np.array([np.asarray(v, float) for v in first_frame[0]]),
+                                                          first_frame[1]):
+            R.violation('calcule_base/frame-returned-earlier-changed-by-later-calls', first_frame[2], '')
 
 
 CHECK = C17()
